@@ -125,6 +125,20 @@ int main(void) {
         for (int k = 0; k < NE_Fi[Z] && cnt < 24; k++) if (Fi_arr[Z][k] == 0.0) { uint64_t b; memcpy(&b, &E_Fi_arr[Z][k], 8); printf(" fi:%d:x%016llx", Z, (unsigned long long)b); cnt++; break; }
       }
       putchar('\n');
+    } else if (!strcmp(op, "inplace") && n == 6) {
+      /* lattice scan: evaluate on a struct, change its cell IN PLACE (same address), evaluate again, and compare with a fresh struct
+         that carries the same changed cell: the answers depend on the cell contents, not on the address they are stored at */
+      Crystal_Struct *src = C(t[1]); double E = pd(t[2]); int h = atoi(t[3]), k = atoi(t[4]), l = atoi(t[5]);
+      if (!src) { printf("inpl 1 1 1\n"); continue; }
+      Crystal_Struct *c = Crystal_MakeCopy(src, NULL);
+      double q0 = Q_scattering_amplitude(c, E, h, k, l, 1.0, NULL); xrlComplex f0 = Crystal_F_H_StructureFactor(c, E, h, k, l, 1.0, 1.0, NULL); double b0 = Bragg_angle(c, E, h, k, l, NULL);
+      (void)q0; (void)f0; (void)b0;
+      c->a *= 1.013; c->b *= 1.013; c->c *= 1.013; c->volume = Crystal_UnitCellVolume(c, NULL);
+      double q1 = Q_scattering_amplitude(c, E, h, k, l, 1.0, NULL); xrlComplex f1 = Crystal_F_H_StructureFactor(c, E, h, k, l, 1.0, 1.0, NULL); double b1 = Bragg_angle(c, E, h, k, l, NULL);
+      Crystal_Struct *d = Crystal_MakeCopy(c, NULL);
+      double q2 = Q_scattering_amplitude(d, E, h, k, l, 1.0, NULL); xrlComplex f2 = Crystal_F_H_StructureFactor(d, E, h, k, l, 1.0, 1.0, NULL); double b2 = Bragg_angle(d, E, h, k, l, NULL);
+      printf("inpl %d %d %d\n", memcmp(&q1, &q2, 8) == 0, memcmp(&f1, &f2, sizeof f1) == 0, memcmp(&b1, &b2, 8) == 0);
+      Crystal_Free(c); Crystal_Free(d);
     } else if (!strcmp(op, "stored") && n == 2) {
       /* user-supplied crystal through the public route: a copy carrying a STALE volume (as a modified copy of another crystal
          would) is added to a private array and looked up again; prints the stored volume of what the array hands out */
